@@ -100,6 +100,37 @@ Proof.
   unfold sr_hist in Hout. now rewrite assign_snd in Hout.
 Qed.
 
+(* The same for either setting of SetAllowMiscIncomingData: with the mode on, the only additional things
+   handed over are datagrams that are NOT in tunnel format (too short for a fragment header, or not
+   starting with the magic), verbatim as cut to the receiver's MTU. *)
+Theorem tunnel_sound_misc :
+  forall (rc : rcfg) (who : addr -> option sender_run) (net : list (addr * packet)) t out,
+    4 <= rc_mtu rc ->
+    (forall a s, who a = Some s -> sr_ok s) ->
+    (forall a s p, who a = Some s -> In (a, p) net -> In p (sr_packets s) \/ foreign (rc_magic rc) p) ->
+    recv_all rc [] net = (t, out) ->
+    forall a s m, who a = Some s -> In (a, m) out ->
+      In m (sr_msgs s) \/ exists p, In (a, p) net /\ misc_passed rc p m.
+Proof.
+  intros rc who net t out Hmtu Hok Hnet Hrun a s m Ha Hin.
+  set (who' := fun b => option_map sr_hist (who b)).
+  assert (Hgen : forall b p h, In (b, p) net -> who' b = Some h ->
+                   NoDup (map fst h) /\ Forall (valid h) (frags_of rc p)).
+  { intros b p h Hbp Hb. unfold who' in Hb. destruct (who b) as [sb|] eqn:Ewb; [|discriminate].
+    injection Hb as <-. pose proof (Hok b sb Ewb) as Hsok.
+    split.
+    - destruct Hsok as (_ & Hid & _ & Hlen & _). now apply assign_nodup.
+    - unfold frags_of. destruct (Hnet b sb p Ewb Hbp) as [Hsent|Hfor].
+      + destruct (sent_packets_spec sb Hsok) as (fss & pend & Epk & Hv & Hw & Hsz & _).
+        rewrite Epk in Hsent. apply in_map_iff in Hsent as (fs & <- & Hfs).
+        rewrite Forall_forall in Hv, Hw.
+        apply parse_truncated_Forall; [now apply Hw|now apply Hv].
+      + rewrite parse_foreign; [constructor|]. unfold foreign in Hfor. now rewrite first_word_takeN. }
+  destruct (recv_all_sound_g rc who' net [] t out Hgen (tbl_good_nil _) Hrun) as [_ Hout].
+  specialize (Hout a m (sr_hist s) Hin). unfold who' in Hout. rewrite Ha in Hout. specialize (Hout eq_refl).
+  unfold sr_hist in Hout. now rewrite assign_snd in Hout.
+Qed.
+
 (* ------------------------------------------------------------------ completeness *)
 
 (* THE PROPERTY, second clause.  When the transport delivers every packet once and in order (to a
